@@ -152,3 +152,11 @@ Lemma ex_stable_nonvacuous :
   distinct_heads w_lay l = true /\ map s_info l <> map s_info ex_stmts /\
   distinct_heads w_lay idem_stmts = false.
 Proof. repeat split; vm_compute; congruence. Qed.
+
+(* _remove_self_imports: the self import goes and m.g becomes g; with a bare use of m nothing is touched *)
+Lemma self_import_example :
+  option_map (fun r => (map s_info (fst r), snd r)) (organize_self w_lay w_prefs [n_m] self_used [] self_stmts)
+  = Some ([Normal [([n_la], None)]], [[n_g]; [n_la; n_x]]) /\
+  option_map (fun r => (map s_info (fst r), snd r)) (organize_self w_lay w_prefs [n_m] self_used_bare [] self_stmts)
+  = Some ([Normal [([n_m], None)]; Normal [([n_la], None)]], self_used_bare).
+Proof. split; vm_compute; reflexivity. Qed.
